@@ -410,12 +410,32 @@ pub fn run(tier: Tier) {
     let off = ctx.seed.wrapping_mul(4096);
     let s512: Vec<u64> = if tier.thorough() { (0..16).map(|i| off + i).chain([785]).collect() } else { vec![off, off + 1, 785] };
     let s1024: Vec<u64> = if tier.thorough() { (0..4).map(|i| off + i).chain([14]).collect() } else { vec![off, 14] };
+    // keys whose generation had to reject a first candidate f vanishing at the first / last transform slot
+    let mut s512 = s512;
+    let mut s1024 = s1024;
+    let mut steered = 0;
+    for (n, list) in [(512usize, &mut s512), (1024, &mut s1024)] {
+        for (s, slot) in crate::util::slot_boundary_seeds(n) {
+            if slot == 0 || slot == n - 1 {
+                list.push(s);
+                steered += 1;
+            }
+        }
+    }
+    ctx.set("keys_steered_to_the_invertibility_rejection_branch", json!(steered));
     let k512: Vec<KeyCtx<V512>> = s512.par_iter().map(|&s| make_key::<V512>(s)).collect();
     let k1024: Vec<KeyCtx<V1024>> = s1024.par_iter().map(|&s| make_key::<V1024>(s)).collect();
     environments_part::<V512>(&mut ctx, tier, &k512);
     environments_part::<V1024>(&mut ctx, tier, &k1024);
     let sh = Arc::new(Shared { k512, k1024, msgs: messages() });
     histories_part(&mut ctx, tier, sh);
+    crate::history::differential(&mut ctx, "history_differential_signing", &["S512", "S1024", "K512", "K1024", "D512"], 2, &|_op, digest| {
+        if digest.contains("verifies=false") {
+            Some("a signature does not verify".to_string())
+        } else {
+            None
+        }
+    });
     crate::e5::run_part(&mut ctx, "sign");
     ctx.sample(json!({"cell":"falcon512 key LE64(0), message 'data1'","deviations":[[0,6],[3,8]],"meaning":"at sampler iteration 0 the environment answers z0=18,b=1,accept-if-possible; at iteration ~0.7n it answers z0=18,b=1,reject; all other draws from the default ChaCha stream"}));
     ctx.assume("seeds, messages and streams outside the enumerated alphabet are not covered; sign's correctness for arbitrary sampler outcomes reduces to (a) integral samples (by type), (b) float error < 1/2 so rounding recovers the lattice point (checked on every explored execution, incl. forced outliers), (c) both loops re-sample from scratch (forced retries)");
@@ -426,6 +446,9 @@ pub fn run(tier: Tier) {
 pub fn replay(case: &Value) -> Result<Option<String>, String> {
     if case.get("kind").and_then(|k| k.as_str()) == Some("e5") {
         return crate::e5::replay(case);
+    }
+    if case.get("kind").and_then(|k| k.as_str()) == Some("history") && case.get("history").map(|h| h.is_string()).unwrap_or(false) {
+        return crate::history::replay(case);
     }
     let kind = case.get("kind").and_then(|k| k.as_str()).ok_or("no kind")?;
     match kind {
